@@ -107,3 +107,8 @@ def expression(draw, names, max_leaves=8, funcs=FUNCS, ops=('+', '-', '*', '/', 
         return atom()
 
     return build(draw(st.integers(1, max_leaves)), 0)
+
+
+def chance(num, den):
+    """True with probability ~num/den (sampled_from is close to uniform; st.integers is biased to small values)."""
+    return st.sampled_from([False] * (den - num) + [True] * num)
